@@ -185,7 +185,7 @@ def _deserialize_from_shm(buf: pa.Buffer, schema: pa.Schema) -> pa.RecordBatch:
     """
     if not _has_dictionary_columns(schema):
         reader = ipc.open_stream(buf)
-        return reader.read_next_batch()
+        return _validated(reader.read_next_batch())
 
     # Dictionary path: reconstruct full IPC stream
     # 1. Create schema message bytes (new_stream + close = schema + EOS)
@@ -198,7 +198,21 @@ def _deserialize_from_shm(buf: pa.Buffer, schema: pa.Schema) -> pa.RecordBatch:
     # 2. Combine: schema_msg + dict/batch messages from SHM + EOS
     combined = schema_msg + buf.to_pybytes() + _IPC_EOS
     reader = ipc.open_stream(pa.py_buffer(combined))
-    return reader.read_next_batch()
+    return _validated(reader.read_next_batch())
+
+
+def _validated(batch: pa.RecordBatch) -> pa.RecordBatch:
+    """Validate a batch read back from shared memory before anyone touches its values.
+
+    The region is written by the peer.  In the dictionary path its bytes are
+    decoded under the *pointer batch's* schema, so a region that holds a batch
+    of another shape yields arrays whose offsets and indices point outside
+    their buffers; reading a value from such an array is undefined behaviour
+    in Arrow (the process dies, taking every connection with it).  Batches
+    that arrive inline get the same check from ``ValidatedReader``.
+    """
+    batch.validate(full=True)
+    return batch
 
 
 # ---------------------------------------------------------------------------
